@@ -162,6 +162,7 @@ KANI = {
         K("c19::p_c19_values_int", "3 int values; maximum 0..=3", "with_int_values: first supplied on top, overflow; generated accessors"),
         K("c19::p_c19_values_bool_float", "2 bool, 1 float value; maximum 2", "with_bool_values / with_float_values; generated accessors"),
         K("c19::p_c19_inputs", "2 named inputs, two declaration orders", "with_<stack>_input order independence (state equality)", "thorough"),
+        K("c04::p_c04_bulk", "prior depth 0..=2, 0..=3 items, maximum depth-1..=depth+1; sizes that do not add up in a usize", "Stack::push_many (what with_<stack>_values / with_program load through)"),
         K("c19::p_c19_alt_sizes", "second state type AltState (hook; renamed builder stacks, other field order, exec field `work`): all usize sizes / step limits; 3 call orders (loop-free)", "with_max_stack_size / with_flags_max_size / with_counters_max_size; generated accessors address their fields (pointer equality)", complete=True),
         K("c19::p_c19_alt_values", "AltState: 3 int values through with_counters_values; maximum 0..=3", "with_<renamed>_values: first supplied on top, overflow"),
         K("c19::p_c19_alt_flags", "AltState: 2 bool values through with_flags_values; maximum 2", "with_<renamed>_values"),
@@ -323,8 +324,8 @@ PROPS["C13"] = {"templates": PRELUDE + ["82_ec_weighted.vrs"] + MAIN, "extern": 
 PROPS["C14"] = {"templates": PRELUDE + ["84_ec_operators.vrs"] + MAIN, "extern": True, "steps": [run_verus_property, run_kani_property], "level": "proof",
                 "kani": KANI["C14"],
                 "explanation": "Verus: every operator is specified as a function op(input, stream state) -> (result, stream state); the real apply() bodies of Then, And, Map over a pair, "
-                               "Identity, Constant, Mutate, Recombine and the by-reference impls are proved against compositional spec functions for arbitrary parts, so any nesting depth "
-                               "follows by construction; Kani: Map over array / Vec, RepeatWith, GenomeScorer, error display, see `bounded`.",
+                               "Identity, Constant, Mutate, Recombine, Select, GenomeExtractor, GenomeScorer and the by-reference impls are proved against compositional spec functions for arbitrary parts, so any nesting depth "
+                               "follows by construction; Kani: Map over array / Vec, RepeatWith, error display, see `bounded`.",
                 "assumptions": KANI_ASSUME + ["an arbitrary part satisfies the Operator contract (is a function of its input and the stream state) — the contract every combinator is proved to preserve",
                                               "Clone::clone returns a value equal to the original (axiom_clone_is_copy)"]}
 
